@@ -236,6 +236,15 @@ def judge(case: Dict[str, Any], res: Any) -> None:
     if not life or not any(m["type"] == "lifespan.shutdown" for m in life[0].received):
         raise Violation("lifespan_shutdown_not_delivered", "", **tag)
     t_down = next(m["_t"] for m in life[0].received if m["type"] == "lifespan.shutdown")
+    # "runs lifespan shutdown": an application that needs less than shutdown_timeout for it
+    # gets to say lifespan.shutdown.complete before serve() returns
+    if case["lifespan_delay"] < case["shutdown_timeout"] and not any(
+            s_["msg"].get("type") == "lifespan.shutdown.complete" and s_.get("outcome") == "ok"
+            for s_ in life[0].sends):
+        raise Violation("lifespan_shutdown_cut_short", f"lifespan.shutdown at t={t_down}, the "
+                        f"application needed {case['lifespan_delay']}s of the "
+                        f"{case['shutdown_timeout']}s allowed and was not waited for (ended: "
+                        f"{life[0].exit})", **tag)
     for i in res.instances:
         if i.scope.get("type") == "lifespan" or i.start_t > t0:
             continue
